@@ -13,6 +13,7 @@ structure Memb (P : Prog) (s : State) : Prop where
   hh : ∀ k, s.hstate k = .joinable → P.managed k = false
   pj : ∀ t, Instr.pjaSwapPush ∈ (s.th t).code → P.managed t = true
 
+set_option maxHeartbeats 1000000 in
 theorem exec_memb (P : Prog) (s s' : State) (t : Nat) (i : Instr) (rest : List Instr)
     (hc : (s.th t).code = i :: rest) (h : exec P s t i rest = some s') (hi : Memb P s) : Memb P s' := by
   have oth := exec_other P s s' t i rest h
@@ -67,9 +68,11 @@ theorem exec_memb (P : Prog) (s s' : State) (t : Nat) (i : Instr) (rest : List I
     | assumption
     | exact mft.2
     | (refine ⟨by assumption, fun k hk => ?_⟩; split at hk <;> first | exact hh k hk | simp_all)
-    | (refine ⟨by assumption, fun k hk => ?_⟩; rename_i k0 _ _ hm; by_cases hkk : k = k0
-       · subst hkk; exact hm
-       · exact hh k (hk hkk))
+    | (refine ⟨by assumption, fun k hk => ?_⟩
+       by_cases hh' : s.hstate k = HState.joinable
+       · exact hh k hh'
+       · have hkk := Classical.byContradiction (fun hne => hh' (hk hne))
+         subst hkk; assumption)
     | (split <;> simp_all <;> assumption))
 
 theorem upd_idem {α : Type} (f : Nat → α) (t : Nat) (x y : α) : upd (upd f t y) t x = upd f t x := by
@@ -151,18 +154,20 @@ theorem exec_countEq (P : Prog) (s s' : State) (t : Nat) (i : Instr) (rest : Lis
         simp [wPlus, wMinus, hc, cPlus, cMinus, iPlus, iMinus, Ne.symm hjt]
     · refine countEq_upd1 P s _ t _ hE ht rfl ?_
       simp [wPlus, wMinus, hc, cPlus, cMinus, iPlus, iMinus]
-  case create k =>
+  case create k pin nf =>
     simp only [exec] at h
     split at h
     · simp only [Option.some.injEq] at h; subst h
       refine countEq_upd1 P s _ t _ hE ht rfl ?_
       simp only [wPlus, wMinus, hc, cPlus, cMinus, iPlus, iMinus, cPlus_append, cMinus_append, cont_count, pushW_count]
-      split <;> simp [cPlus, cMinus, iPlus, iMinus] <;> omega
+      by_cases hmk : P.managed k = true <;> by_cases hp : pin = true <;>
+        simp [hmk, hp, cPlus, cMinus, iPlus, iMinus] <;> omega
     · split at h
       · simp only [Option.some.injEq] at h; subst h
         refine countEq_upd1 P s _ t _ hE ht rfl ?_
         simp only [wPlus, wMinus, hc, cPlus, cMinus, iPlus, iMinus, cPlus_append, cMinus_append, cont_count]
-        split <;> simp [cPlus, cMinus, iPlus, iMinus] <;> omega
+        by_cases hmk : P.managed k = true <;> by_cases hp : pin = true <;>
+          simp [hmk, hp, cPlus, cMinus, iPlus, iMinus] <;> omega
       · rename_i hg
         simp only [not_or, Decidable.not_not, Nat.not_le] at hg
         obtain ⟨hs0, _, hkn, htk⟩ := hg
